@@ -23,13 +23,14 @@ class EnumLit:
 
 class DocGen:
     def __init__(self, schema, rng, max_depth=4, ops=('query', 'query', 'query', 'mutation'), p_defer=0.0, p_stream=0.0,
-                 p_var=0.3, p_dir=0.3, p_null=0.12, subscription_single_root=True):
+                 p_var=0.3, p_dir=0.3, p_null=0.12, subscription_single_root=True, p_boundary=0.0):
         self.s = schema
         self.r = rng
         self.max_depth = max_depth
         self.ops = ops
         self.p_defer, self.p_stream = p_defer, p_stream
         self.p_var, self.p_dir, self.p_null = p_var, p_dir, p_null
+        self.p_boundary = p_boundary
         self.vars = {}     # name -> (type string, default literal or '', (provide, value))
         self.frags = {}    # complete fragments: name -> (type condition, body)
         self.nfrag = 0
@@ -181,7 +182,7 @@ class DocGen:
         for aname, adef in fdef.args.items():
             req = is_non_null_type(adef.type) and adef.default is None
             if req or r.random() < 0.5:
-                args.append(f'{aname}: {self.argval(adef.type, 0)}')
+                args.append(f'{aname}: {self.argval(adef.type, 0, adef.default is not None)}')
         argtext = f'({", ".join(args)})' if args else ''
         stream = ''
         t = fdef.type
@@ -271,9 +272,13 @@ class DocGen:
             return '{' + ', '.join(f'{k}: {self.lit_of(x)}' for k, x in v.items()) + '}'
         raise AssertionError(v)
 
-    def argval(self, t, d):
+    def argval(self, t, d, has_default=False):
         r = self.r
         if r.random() < self.p_var:
+            if has_default and is_non_null_type(t) and r.random() < 0.4:
+                # a nullable variable in a non-null position that has a default: allowed by validation,
+                # and the one case where a null value fails only at run time
+                return '$' + self.var(str(t.of_type), lambda: self.pyval(t.of_type, d))
             return '$' + self.var(str(t), lambda: self.pyval(t, d))
         if r.random() < 0.5:
             return self.lit_text(t, d)
@@ -286,6 +291,9 @@ class DocGen:
             return self.lit_text(t.of_type, d, True, novar)
         if d > 0 and not novar and r.random() < self.p_var * 0.6:
             ts = str(t) + ('!' if nonnull else '')
+            if nonnull and r.random() < self.p_boundary:
+                ts = str(t)   # boundary case: a nullable variable in a non-null nested position (validation must reject it
+                              # unless the position has a default of its own)
             tt = self.type_of_str(ts)
             return '$' + self.var(ts, lambda: self.pyval(tt, d))
         if not nonnull and r.random() < self.p_null:
